@@ -398,13 +398,18 @@ class Scheduler:
             try:
                 r = fn()
             except sqlite3.OperationalError as e:
-                if "locked" not in str(e):
+                # NB: `e` must not stay bound in this frame while the exception propagates (frame <-> traceback
+                # cycle: the connection inside the frames would then hold its locks until a GC run)
+                msg = repr(e)
+                locked = "locked" in str(e)
+                del e
+                if not locked:
                     with self.cv:
-                        self.report[tid] = ("error", time.perf_counter() - t0, e)
+                        self.report[tid] = ("error", time.perf_counter() - t0, msg)
                         self.cv.notify_all()
                     raise
                 with self.cv:
-                    self.report[tid] = ("locked", time.perf_counter() - t0, e)
+                    self.report[tid] = ("locked", time.perf_counter() - t0, msg)
                     self.cv.notify_all()
                     while tid not in self.go:
                         self.cv.wait()
@@ -413,8 +418,10 @@ class Scheduler:
                     raise
                 continue   # retry: wait at the gate again with the same statement
             except BaseException as e:  # noqa
+                msg = repr(e)
+                del e
                 with self.cv:
-                    self.report[tid] = ("error", time.perf_counter() - t0, e)
+                    self.report[tid] = ("error", time.perf_counter() - t0, msg)
                     self.cv.notify_all()
                 raise
             with self.cv:
@@ -428,6 +435,9 @@ class Scheduler:
             res = ("ok", fn())
         except BaseException as e:  # noqa
             res = ("exc", "%s: %s" % (type(e).__name__, e))
+            del e
+        import gc
+        gc.collect()   # whatever the failed call left in cycles (its connection) goes away now, as at process exit
         with self.cv:
             self.finished[tid] = res
             self.cv.notify_all()
@@ -569,6 +579,14 @@ def scheduled_run(ctx, case, drv, pool):
                 model[pick] = {"lock": preds[pick]["lock"], "inTxn": preds[pick]["inTxn"]}
             if rep[0] == "locked":
                 sched.decide(pick, "retry" if real == "waits" else "raise")
+                if real != "waits":
+                    # the exception leaves parse(); the connection is dropped (rolled back) with its frames
+                    model[pick] = {"lock": "none", "inTxn": False}
+            elif rep[0] == "error":
+                with sched.cv:
+                    gone = pick in sched.finished
+                if gone:
+                    model[pick] = {"lock": "none", "inTxn": False}
             steps += 1
             if steps > 3000:
                 raise HarnessError("scheduled run does not terminate")
@@ -608,7 +626,12 @@ def _pool_worker(idx, cmd, res, barriers):
         import pymoca
         from pymoca import parser
         pymoca.__version__ = VERSION
+        parent = os.getppid()
         while True:
+            # the other workers hold copies of this pipe's write end, so a dead parent does not give EOF
+            while not cmd.poll(1.0):
+                if os.getppid() != parent:
+                    os._exit(0)
             c = cmd.recv()
             if c is None:
                 break
